@@ -118,6 +118,7 @@ fn enum_conv(cmd: &Value) -> OpResult {
         "SecretName" => se!(st, e::secret::request::SecretName),
         "PolicyRecommendation" => se!(st, e::policy::rule::Recommendation),
         "CallHangupReason" => se!(st, e::call::hangup::Reason),
+        "StreamPurpose" => se!(st, e::call::StreamPurpose),
         "ServerNoticeType" => se!(st, e::room::message::ServerNoticeType),
         "LimitType" => se!(st, e::room::message::LimitType),
         "PresenceState" => se!(st, c::presence::PresenceState),
@@ -171,6 +172,21 @@ fn enum_conv(cmd: &Value) -> OpResult {
         "EventEncryptionAlgorithm" => Some(variants!(c::EventEncryptionAlgorithm; OlmV1Curve25519AesSha2, MegolmV1AesSha2)),
         "KeyDerivationAlgorithm" => Some(variants!(c::KeyDerivationAlgorithm; Pbkfd2)),
         "OneTimeKeyAlgorithm" => Some(variants!(c::OneTimeKeyAlgorithm; SignedCurve25519)),
+        "HashAlgorithm" => Some(variants!(e::key::verification::HashAlgorithm; Sha256)),
+        "CancelCode" => Some(variants!(e::key::verification::cancel::CancelCode; User, Timeout, UnknownTransaction, UnknownMethod, UnexpectedMessage, KeyMismatch, UserMismatch, InvalidMessage, Accepted, MismatchedCommitment, MismatchedSas)),
+        "RoomKeyRequestAction" => Some(variants!(e::room_key_request::Action; Request, CancelRequest)),
+        "SecretName" => Some(variants!(e::secret::request::SecretName; CrossSigningMasterKey, CrossSigningUserSigningKey, CrossSigningSelfSigningKey, RecoveryKey)),
+        "PolicyRecommendation" => Some(variants!(e::policy::rule::Recommendation; Ban)),
+        "CallHangupReason" => Some(variants!(e::call::hangup::Reason; IceFailed, InviteTimeout, IceTimeout, UserHangup, UserMediaFailed, UserBusy, UnknownError)),
+        "ServerNoticeType" => Some(variants!(e::room::message::ServerNoticeType; UsageLimitReached)),
+        "LimitType" => Some(variants!(e::room::message::LimitType; MonthlyActiveUser)),
+        "PredefinedOverrideRuleId" => Some(variants!(c::push::PredefinedOverrideRuleId; Master, SuppressNotices, InviteForMe, MemberEvent, IsUserMention, ContainsDisplayName, IsRoomMention, RoomNotif, Tombstone, Reaction, RoomServerAcl, SuppressEdits)),
+        "PredefinedUnderrideRuleId" => Some(variants!(c::push::PredefinedUnderrideRuleId; Call, EncryptedRoomOneToOne, RoomOneToOne, Message, Encrypted)),
+        "PredefinedContentRuleId" => Some(variants!(c::push::PredefinedContentRuleId; ContainsUserName)),
+        "PublicRoomJoinRule" => Some(variants!(c::directory::PublicRoomJoinRule; Knock, Public)),
+        "KeyUsage" => Some(variants!(c::encryption::KeyUsage; Master, SelfSigning, UserSigning)),
+        "TokenType" => Some(variants!(c::authentication::TokenType; Bearer)),
+        "StreamPurpose" => Some(variants!(e::call::StreamPurpose; UserMedia, ScreenShare)),
         _ => None,
     };
     out["variants"] = vars.unwrap_or(Value::Null);
